@@ -33,6 +33,9 @@ func c16Compose() (hackpadfs.FS, string, int, []bool) {
 		verifTag("fs", "below-mount")
 	}
 	verifAssert(base.Mkdir(prefix, 0755) == nil, "Mkdir d")
+	// siblings whose names extend the directory's name must never show up in its listing
+	verifAssert(hackpadfs.WriteFullFile(base, prefix+"a", []byte{1}, 0644) == nil, "WriteFullFile da failed")
+	verifAssert(base.Mkdir(prefix+".x", 0755) == nil, "Mkdir d.x failed")
 	c := verifChoice("children", verifParam("N")+1)
 	isDir := make([]bool, c)
 	for i := 0; i < c; i++ {
